@@ -126,4 +126,13 @@ def updateSet (z : Zlib) (set : PayloadSet) (p : FragMsg) : PayloadSet × Option
       | some s => (set', some s)
       | none => (initSet p, none)
 
+/-- `Schedule._handle_msg` for an RP|0404 that carries a fragment (the passive path): the set held is
+    updated, and the schedule held (`_full_schedule`) is replaced when - and only when - this step
+    decoded one -/
+def feedMsg (z : Zlib) (st : PayloadSet × Option Sched) (p : FragMsg) : PayloadSet × Option Sched :=
+  let r := updateSet z st.1 p
+  (r.1, match r.2 with
+        | some s => some s
+        | none => st.2)
+
 end Ramses
